@@ -6,7 +6,7 @@
 //@@ attach: searchlite-core/src/query/wand.rs
 //@@ requires: postings_support.rs
 use super::*;
-use crate::index::postings::verif_postings_support::reader_from;
+use crate::index::postings::verif_postings_support::{reader_from, reader_with_stored_blocks};
 use crate::index::postings::PostingEntry;
 use smallvec::SmallVec;
 
@@ -61,6 +61,24 @@ fn state(entries: Vec<PostingEntry>, max_tf: f32, block: usize, lens: Option<Arc
       b: 0.4,
       leaf: 0,
       doc_lengths: lens,
+    },
+    block,
+  )
+}
+
+/// A term whose posting list carries stored block metadata for blocks of 2 postings
+/// (what a segment file holds), executed with a possibly different runtime block size.
+fn state_stored2(entries: Vec<PostingEntry>, max_tf: f32, block: usize) -> TermState {
+  TermState::new(
+    ScoredTerm {
+      postings: reader_with_stored_blocks(entries, max_tf, 2),
+      weight: 1.0,
+      avgdl: 8.0,
+      docs: 10.0,
+      k1: 0.9,
+      b: 0.4,
+      leaf: 0,
+      doc_lengths: None,
     },
     block,
   )
@@ -180,6 +198,50 @@ fn c09_score_bounds_ordered() {
   bounds_case(3);
   bounds_case(4);
   bounds_case(5);
+}
+
+fn stored_case(block: usize) {
+  let (d, tf, entries) = any_postings4();
+  let target: DocId = kani::any();
+  let mut st = state_stored2(entries, max4(&tf) as f32, block);
+  let mut i = 0;
+  while i < 4 {
+    st.idx = i;
+    let s = st.score_current();
+    let bu = st.block_upper_bound();
+    assert!(s <= bu, "C09: a posting scores above its block upper bound (stored block metadata used with another block size)");
+    assert!(bu <= st.upper_bound(), "C09: a block upper bound exceeds the term upper bound");
+    i += 1;
+  }
+  st.idx = 0;
+  let moved = st.skip_to_block(target);
+  assert!(st.idx <= 4 && moved == st.idx, "C09: skip_to_block reports a wrong number of skipped postings");
+  let mut i = 0;
+  while i < 4 {
+    if i < st.idx {
+      assert!(d[i] < target, "C09: skip_to_block skipped a posting at or after the target (stored block metadata)");
+    }
+    i += 1;
+  }
+  std::mem::forget(st);
+}
+
+//@ props: C09
+//@ tier: quick
+//@ funcs: query::wand::TermState::new, build_block_meta (reuse of the metadata stored with the posting list), TermState::block_upper_bound, TermState::skip_to_block
+//@ symbolic: 4 postings (increasing doc ids, tf 1..3) whose stored block metadata is for blocks of 2; runtime block sizes 1, 2, 4 and 5; the skip target
+//@ bounds: 4 postings, stored block size 2, runtime block sizes 1, 2, 4, 5
+//@ oracle: whatever runtime block size is requested, every posting scores at most its block upper bound and skip_to_block never passes a posting >= target (stored metadata may only be reused when it was built for the same block size)
+//@ assumes: bm25 replaced by a monotone surrogate
+#[kani::proof]
+#[kani::unwind(7)]
+#[kani::stub(crate::query::bm25::bm25, bm25_surrogate)]
+fn c09_stored_block_metadata_reuse() {
+  stored_case(1);
+  stored_case(2);
+  stored_case(4);
+  stored_case(5);
+  kani::cover!(true, "all runtime block sizes executed");
 }
 
 //@ props: C09, C10
